@@ -23,6 +23,9 @@ inductive VT (S : Sig) (P : Prog) (Ψ : List Ty) : Val → Ty → Prop
   | array {vs : List Val} {e : Ty} {n : Nat} : VTall S P Ψ vs e → vs.length = n → VT S P Ψ (.array vs) (.array n e)
   | vec {vs : List Val} {e : Ty} : VTall S P Ψ vs e → VT S P Ψ (.vec vs) (.vec e)
   | ref {l : Nat} {e : Ty} : Ψ[l]? = some e → VT S P Ψ (.ref l) (.ref e)
+  /-- a trait object: the packed value has a keyable type, and the object carries that type's key -/
+  | dyn {tr key : String} {v : Val} {τ : Ty} : keyable S τ = true → VT S P Ψ v τ → tyKey τ = key →
+      VT S P Ψ (.dyn tr key v) (.dyn tr)
   | closure {θ : Subst} {ρ : Env} {Γ : TyEnv} {pts : List (String × Ty)} {body : Expr} :
       ET S P Ψ θ ρ Γ → errs S (bindAll pts Γ) body = [] → okE S P true (bindAll pts Γ) [] body = true →
       VT S P Ψ (.closure (pts.map (·.1)) body ρ) (.func (substTys θ (pts.map (·.2))) (substTy θ (getTy body)))
